@@ -18,14 +18,16 @@ TARGETS = [
     ('sizes', 'graphtage.KeyValuePairNode.calculate_total_size'), ('sizes', 'graphtage.NullNode.calculate_total_size'),
     ('sizes', 'xml.XMLElement.calculate_total_size'), ('sizes', 'plist.PLISTNode.calculate_total_size'),
     ('sizes', 'pydiff.PyObj.calculate_total_size'), ('sizes_memo', 'tree.TreeNode.total_size'),
+    ('sizes_ms', 'graphtage.MultiSetNode.calculate_total_size'),      # MultiSetNode and DictNode (Counter of children)
+    ('sizes_fk', 'sequences.SequenceNode.calculate_total_size'),      # the same inherited method run for a FixedKeyDictNode
 ]
 TRUSTED = ['protocol B for sub-edits', 'structural induction over the edit tree (paper step)',
            'size lemma: structural induction over the document tree composes the per-class steps (paper step); '
-           'MultiSetNode/DictNode/FixedKeyDictNode/DataClassNode.calculate_total_size not under contract (bounded); len(str(x)) >= 0; '
+           'DataClassNode.calculate_total_size not under contract (bounded); stored Counter counts are >= 1 (precondition of the MultiSetNode step); len(str(x)) >= 0; '
            'prefix-sum induction schema (sum of terms >= c over m elements is >= c*m)']
 ASSUMPTIONS = ['numpy cost cells are mathematical integers']
 EXPLANATION = (
-    "Deductive (size lemma): calculate_total_size of LeafNode, NullNode, KeyValuePairNode, ListNode (SequenceNode), XMLElement, "
+    "Deductive (size lemma): calculate_total_size of LeafNode, NullNode, KeyValuePairNode, ListNode and FixedKeyDictNode (SequenceNode), MultiSetNode/DictNode (sum of (size+1)*count over the Counter), XMLElement, "
     "PLISTNode and PyObj returns the size formula of its class and a non-negative value given non-negative child sizes, and "
     "TreeNode.total_size returns the memo once set (immutable) and otherwise stores what calculate_total_size answers - the "
     "facts behind every constant cost size+1 / max(size, size)+1.  "
@@ -79,6 +81,8 @@ def _size_jobs():
     jobs = [('size', d, k, o) for d in docs for k in ('json', 'multiset') for o in (gt.OPTION_COMBOS[0], gt.OPTION_COMBOS[-1])]
     jobs += [('size', x, 'xml', gt.OPTION_COMBOS[0]) for x in gt.xml_specs()[:14]]
     jobs += [('size', d, 'plist', gt.OPTION_COMBOS[0]) for d in docs[:6]]
+    jobs += [('size', d, 'pyobj', gt.OPTION_COMBOS[0]) for d in docs[:6]]
+    jobs += [('size', src, 'pyast', gt.OPTION_COMBOS[0]) for src in gt.pyast_sources()[::3]]      # data-class nodes
     return jobs
 
 
@@ -98,6 +102,8 @@ def _size_check(job):
         elif kind == 'plist':
             from graphtage.plist import PLISTNode
             root = PLISTNode(gt.build(doc, opt))
+        elif kind in ('pyobj', 'pyast'):
+            root = gt.build_any((kind, doc), opt)[0]
         else:
             root = gt.build(doc, opt)
         nodes = [root] + list(root.dfs()) if root not in list(root.dfs())[:1] else list(root.dfs())
@@ -115,6 +121,10 @@ def _size_check(job):
                 exp = sum(c.total_size + 1 for c in n)
             elif cn == 'PLISTNode':
                 exp = n.root.calculate_total_size()
+            elif cn == 'PyObj':
+                exp = n.attrs.calculate_total_size()
+            elif hasattr(n, '_SLOTS') and hasattr(n, 'items'):      # DataClassNode: the sum over its slots
+                exp = sum(v.calculate_total_size() for _, v in n.items())
             elif isinstance(n, graphtage.LeafNode):
                 exp = 0 if cn == 'NullNode' else len(str(n.object))
             ts1 = n.total_size
@@ -251,7 +261,7 @@ def bounded(tier, seed, repo_root):
     for sa, sb in big:
         for o in (gt.OPTION_COMBOS[0], gt.OPTION_COMBOS[3]):      # (list edits on: positional pairing of unrelated long strings takes minutes)
             jobs.append(('biglist', sa, sb, o))
-    jobs += _size_jobs()      # (MultiSetNode / FixedKeyDictNode.calculate_total_size are not under contract: bounded here)
+    jobs += _size_jobs()      # (DataClassNode.calculate_total_size is not under contract: bounded here)
     res = pmap(_check, jobs, repo_root, job_timeout=60, on_timeout=timeout_failure('C03'))
     fails = [f for fs in res for f in fs if f['class'].startswith('c03-')]
     return [{
